@@ -57,6 +57,7 @@ type Solver struct {
 	Time     time.Duration
 	dead     bool
 	extraOpen bool
+	NKilled int
 	needRestart bool
 	NCancel int
 	resetMode bool
@@ -124,6 +125,7 @@ func (s *Solver) readLine() string {
 	l, err := s.out.ReadString('\n')
 	if err != nil {
 		s.dead = true
+		s.needRestart = true
 		return "(error \"solver died\")"
 	}
 	return strings.TrimSpace(l)
@@ -317,6 +319,14 @@ func (s *Solver) popExtra() {
 }
 
 func (s *Solver) readResult() Result {
+	// watchdog: z3 does not always honour its own time limit; kill the process when it overruns
+	limit := time.Duration(2*s.timeoutMs)*time.Millisecond + 5*time.Second
+	proc := s.cmd.Process
+	wd := time.AfterFunc(limit, func() {
+		s.NKilled++
+		proc.Kill()
+	})
+	defer wd.Stop()
 	for {
 		l := s.readLine()
 		switch {
@@ -333,7 +343,7 @@ func (s *Solver) readResult() Result {
 		case l == "unknown" || l == "timeout":
 			return Unknown
 		case strings.HasPrefix(l, "(error"):
-			if strings.Contains(l, "canceled") || strings.Contains(l, "timeout") {
+			if strings.Contains(l, "canceled") || strings.Contains(l, "timeout") || strings.Contains(l, "solver died") {
 				// the time limit fired outside check-sat (e.g. during push): the context is no longer
 				// what we think it is; the answer that follows is discarded and the process restarted
 				s.needRestart = true
